@@ -15,9 +15,12 @@ package main
 // narrower one) are listed in the report and in props.d/C08.json.
 
 import (
+	"bufio"
+	"bytes"
 	"crypto/tls"
 	"fmt"
 	"github.com/fabiolb/fabio/internal/zzverif/simhook"
+	"io"
 	"net"
 	"net/http"
 	"net/netip"
@@ -68,6 +71,42 @@ type c08Scenario struct {
 	// Tasked: the proxy handler goroutines are adopted as tasks, so requests of different
 	// connections interleave at every statement of fabio's header code.
 	Tasked bool `json:"handlers_interleaved_statement_by_statement"`
+	// ClientTLS[i][k]: what client i offers in the handshake of its k-th connection, if that one goes to a TLS listener
+	ClientTLS [][]c08TLSProfile `json:"tls_client_offers,omitempty"`
+	// HTTP10: ids of the requests written as HTTP/1.0 requests (all others are HTTP/1.1)
+	HTTP10 []string `json:"http10_requests,omitempty"`
+}
+
+// c08TLSProfile is what a client offers in one TLS handshake; the zero value is crypto/tls's default offer.
+type c08TLSProfile struct {
+	MaxVersion uint16 `json:"max_version,omitempty"`
+	Suite      uint16 `json:"only_cipher_suite,omitempty"` // TLS 1.2 only: the one suite offered
+}
+
+// the offers a client draws from: value 0 is the default offer (TLS 1.3 today), then TLS 1.2 with the default suite
+// list and with exactly one of the suites an Ed25519 server certificate can serve
+var c08TLSProfiles = []c08TLSProfile{
+	{},
+	{MaxVersion: tls.VersionTLS12},
+	{MaxVersion: tls.VersionTLS12, Suite: tls.TLS_ECDHE_ECDSA_WITH_AES_256_GCM_SHA384},
+	{MaxVersion: tls.VersionTLS12, Suite: tls.TLS_ECDHE_ECDSA_WITH_CHACHA20_POLY1305_SHA256},
+	{MaxVersion: tls.VersionTLS12, Suite: tls.TLS_ECDHE_ECDSA_WITH_AES_128_CBC_SHA},
+	{MaxVersion: tls.VersionTLS12, Suite: tls.TLS_ECDHE_ECDSA_WITH_AES_256_CBC_SHA},
+	{MaxVersion: tls.VersionTLS12, Suite: tls.TLS_ECDHE_ECDSA_WITH_AES_128_GCM_SHA256},
+	{}, {}, // the default offer three times in ten
+}
+
+// c08ConnFacts is what the client side knows about the connection a request travelled on.
+type c08ConnFacts struct {
+	TLS     bool
+	Version uint16 // as negotiated, from the client's tls.ConnectionState
+	Suite   uint16
+	Proto   string // protocol version written in the request line
+}
+
+type c08Facts struct {
+	mu  sync.Mutex
+	req map[string]c08ConnFacts
 }
 
 const c08ListenPort = "9999"        // port of h2FabioAddr
@@ -232,6 +271,9 @@ func c08Gen(g *simcore.Tape, thorough bool) *c08Scenario {
 				}
 			}
 			rq.Headers = hs
+			if !upgrade && c08Chance(g, 12) {
+				sc.HTTP10 = append(sc.HTTP10, rq.ID)
+			}
 			rq.Chunks = c07GenChunks(g, 300)
 			rs := h2Resp{Status: simcore.Pick(g, []int{200, 200, 404, 500, 301}), Body: g.Bytes(g.Range(0, 200)),
 				Headers: []h2Header{{"Content-Type", "application/octet-stream"}}}
@@ -252,6 +294,15 @@ func c08Gen(g *simcore.Tape, thorough bool) *c08Scenario {
 			}
 		}
 		sc.Clients = append(sc.Clients, cl)
+		var offers []c08TLSProfile
+		if c.TLS || c.Both {
+			// one offer per connection the client may open (at most one per request)
+			for k := range cl.Reqs {
+				_ = k
+				offers = append(offers, simcore.Pick(g, c08TLSProfiles))
+			}
+		}
+		sc.ClientTLS = append(sc.ClientTLS, offers)
 	}
 	sc.Tasked = c08Chance(g, 35)
 	if c.Both {
@@ -331,8 +382,9 @@ func runC08(r *simcore.Run) {
 	for _, rt := range sc.Routes {
 		e.upstream(rt.Key, simnet.ListenOpts{}, nil)
 	}
+	facts := &c08Facts{req: map[string]c08ConnFacts{}}
 	for i := range sc.Clients {
-		e.client(&sc.Clients[i])
+		c08Client(e, sc, i, facts)
 	}
 	if !e.run(400000, 30*time.Minute) {
 		r.Trouble("clients did not finish")
@@ -347,9 +399,189 @@ func runC08(r *simcore.Run) {
 		}
 		c08SequenceProbes(r, sc, cl)
 		for qi := range cl.Reqs {
-			c08Check(r, e, sc, cl, &cl.Reqs[qi])
+			c08Check(r, e, sc, cl, &cl.Reqs[qi], facts)
 		}
 	}
+	c08OverlapProbes(r, e, sc, facts)
+}
+
+// c08OverlapProbes counts the runs in which requests of different clients on TLS connections were under way at the
+// same time (from the first byte sent to the last byte received), and those among them whose connections negotiated
+// different parameters.
+func c08OverlapProbes(r *simcore.Run, e *h2Env, sc *c08Scenario, facts *c08Facts) {
+	type span struct {
+		ci   int
+		f    c08ConnFacts
+		a, b time.Time
+	}
+	var spans []span
+	for ci := range sc.Clients {
+		for qi := range sc.Clients[ci].Reqs {
+			id := sc.Clients[ci].Reqs[qi].ID
+			f, ok := facts.req[id]
+			res := e.results[id]
+			if !ok || !f.TLS || res == nil || res.Err != nil {
+				continue
+			}
+			spans = append(spans, span{ci, f, res.SentAt, res.DoneAt})
+		}
+	}
+	overlap, differ := false, false
+	for i := range spans {
+		for j := i + 1; j < len(spans); j++ {
+			x, y := spans[i], spans[j]
+			if x.ci == y.ci || x.b.Before(y.a) || y.b.Before(x.a) {
+				continue
+			}
+			overlap = true
+			if x.f.Version != y.f.Version || x.f.Suite != y.f.Suite {
+				differ = true
+			}
+		}
+	}
+	if overlap {
+		r.Probe("tls_requests_of_two_clients_at_the_same_time")
+	}
+	if differ {
+		r.Probe("tls_requests_at_the_same_time_with_different_version_or_suite")
+		if sc.Tasked {
+			r.Probe("tasked_tls_requests_at_the_same_time_with_different_version_or_suite")
+		}
+	}
+}
+
+// c08Client runs client ci of the scenario. It is h2Env.client with two additions: every TLS handshake offers what
+// the scenario drew for that connection and the parameters the CLIENT side negotiated are kept per request (the
+// oracle's ground truth for tlsver= / tlscipher=), and requests listed in sc.HTTP10 are written as HTTP/1.0.
+func c08Client(e *h2Env, sc *c08Scenario, ci int, facts *c08Facts) {
+	cl := &sc.Clients[ci]
+	http10 := map[string]bool{}
+	for _, id := range sc.HTTP10 {
+		http10[id] = true
+	}
+	e.mu.Lock()
+	e.clients++
+	for i := range cl.Reqs {
+		e.script[cl.Reqs[i].ID] = &cl.Reqs[i]
+	}
+	e.mu.Unlock()
+	go func() {
+		defer func() {
+			e.mu.Lock()
+			e.done++
+			e.mu.Unlock()
+		}()
+		base := e.netAddr(cl.Addr)
+		type clientConn struct {
+			c  net.Conn
+			br *bufio.Reader
+			f  c08ConnFacts
+		}
+		conns := map[string]*clientConn{}
+		var order []string // listener addresses in the order of their first use
+		nconn := 0
+		closeConn := func(to string) {
+			if cc := conns[to]; cc != nil {
+				cc.c.Close()
+				delete(conns, to)
+			}
+		}
+		defer func() {
+			for _, to := range order {
+				closeConn(to)
+			}
+		}()
+		for i := range cl.Reqs {
+			rq := &cl.Reqs[i]
+			res := &h2Result{}
+			e.mu.Lock()
+			e.results[rq.ID] = res
+			e.mu.Unlock()
+			to, useTLS := h2FabioAddr, cl.TLS
+			if rq.To != "" && rq.To != h2FabioAddr {
+				to = rq.To
+				e.mu.Lock()
+				useTLS = e.tlsAt[to]
+				e.mu.Unlock()
+			}
+			if conns[to] == nil {
+				known := false
+				for _, o := range order {
+					known = known || o == to
+				}
+				if !known {
+					order = append(order, to)
+				}
+				from := &net.TCPAddr{IP: base.IP, Port: base.Port + nconn, Zone: base.Zone}
+				var offer c08TLSProfile
+				if ci < len(sc.ClientTLS) && nconn < len(sc.ClientTLS[ci]) {
+					offer = sc.ClientTLS[ci][nconn]
+				}
+				nconn++
+				raw, err := e.net.Dial(e.r.Ctx(), from, to, 0)
+				if err != nil {
+					res.Err = err
+					continue
+				}
+				cc := &clientConn{c: raw}
+				if useTLS {
+					tcfg := &tls.Config{InsecureSkipVerify: true, ServerName: "fabio.sim", NextProtos: []string{"http/1.1"}, MaxVersion: offer.MaxVersion}
+					if offer.Suite != 0 {
+						tcfg.CipherSuites = []uint16{offer.Suite}
+					}
+					tc := tls.Client(raw, tcfg)
+					if err := tc.Handshake(); err != nil {
+						res.Err = err
+						raw.Close()
+						continue
+					}
+					st := tc.ConnectionState()
+					cc.c = tc
+					cc.f = c08ConnFacts{TLS: true, Version: st.Version, Suite: st.CipherSuite}
+				}
+				cc.br = bufio.NewReader(cc.c)
+				conns[to] = cc
+			}
+			c, br := conns[to].c, conns[to].br
+			raw := h2RenderRequest(rq)
+			f := conns[to].f
+			f.Proto = "HTTP/1.1"
+			if http10[rq.ID] {
+				f.Proto = "HTTP/1.0"
+				raw = bytes.Replace(raw, []byte(" HTTP/1.1\r\n"), []byte(" HTTP/1.0\r\n"), 1)
+			}
+			facts.mu.Lock()
+			facts.req[rq.ID] = f
+			facts.mu.Unlock()
+			res.SentAt = time.Now()
+			e.r.Tracef("client %s sends %s %s id=%s", cl.Addr, rq.Method, rq.Path, rq.ID)
+			if err := h2WriteChunks(c, raw, rq.Chunks); err != nil {
+				res.Err = err
+				closeConn(to)
+				continue
+			}
+			resp, err := http.ReadResponse(br, &http.Request{Method: rq.Method})
+			// interim responses (103 Early Hints) precede the final one
+			for err == nil && resp.StatusCode >= 100 && resp.StatusCode < 200 && resp.StatusCode != 101 {
+				res.Interim = append(res.Interim, resp.StatusCode)
+				resp, err = http.ReadResponse(br, &http.Request{Method: rq.Method})
+			}
+			if err != nil {
+				res.Err = err
+				closeConn(to)
+				continue
+			}
+			res.HeaderAt = time.Now()
+			res.Status, res.Proto, res.Header = resp.StatusCode, resp.Proto, resp.Header.Clone()
+			res.TE, res.CL = resp.TransferEncoding, resp.ContentLength
+			res.Body, res.BodyErr = io.ReadAll(resp.Body)
+			res.DoneAt = time.Now()
+			e.r.Tracef("client %s got %d id=%s body=%d err=%v", cl.Addr, res.Status, rq.ID, len(res.Body), res.BodyErr)
+			if resp.Close || res.BodyErr != nil || rq.CloseAfter {
+				closeConn(to)
+			}
+		}
+	}()
 }
 
 // c08SequenceProbes counts the request sequences of one client that carry state from one request to the next.
@@ -474,7 +706,7 @@ func c08SameList(a, b []string) bool {
 	return true
 }
 
-func c08Check(r *simcore.Run, e *h2Env, sc *c08Scenario, cl *h2Client, rq *h2Req) {
+func c08Check(r *simcore.Run, e *h2Env, sc *c08Scenario, cl *h2Client, rq *h2Req, facts *c08Facts) {
 	res := e.results[rq.ID]
 	seen := e.seen[rq.ID]
 	cfg := &sc.Cfg
@@ -748,11 +980,84 @@ func c08Check(r *simcore.Run, e *h2Env, sc *c08Scenario, cl *h2Client, rq *h2Req
 			}
 			fail("forwarded", "Forwarded", sig, "supplied Forwarded does not describe the connection's protocol (acceptable: %q)", ok)
 		}
+		// the further parameters fabio adds to the header it supplies: whatever is there must be true of THIS connection
+		// (a parameter that is missing says nothing false and is not flagged)
+		f, known := facts.req[rq.ID]
+		if len(got) > 0 && known {
+			if f.TLS != onTLS {
+				r.Trouble("%s: client side TLS state %v does not match the scenario", what, f.TLS)
+			}
+			conn := "plain connection"
+			if f.TLS {
+				conn = fmt.Sprintf("TLS connection on which the client negotiated version 0x%04x (%s) and cipher suite 0x%04x (%s)", f.Version, tls.VersionName(f.Version), f.Suite, tls.CipherSuiteName(f.Suite))
+				r.Probe("forwarded_checked_on_" + strings.ReplaceAll(strings.ToLower(tls.VersionName(f.Version)), " ", ""))
+				r.Probe(fmt.Sprintf("forwarded_checked_with_suite_0x%04x", f.Suite))
+			}
+			if f.Proto == "HTTP/1.0" {
+				r.Probe("forwarded_checked_on_http10_request")
+			}
+			for _, v := range c08Params(got, true, "httpproto") {
+				if !strings.EqualFold(v, f.Proto) {
+					fail("forwarded", "Forwarded", "httpproto-wrong", "the client's request was an %s request, the supplied Forwarded says httpproto=%q", f.Proto, v)
+				}
+			}
+			for _, v := range c08Params(got, true, "tlsver") {
+				switch {
+				case !f.TLS:
+					fail("forwarded", "Forwarded", "tlsver-on-plain", "plain connection, the supplied Forwarded says tlsver=%q", v)
+				case !c08NamesTLSVersion(v, f.Version):
+					fail("forwarded", "Forwarded", "tlsver-wrong", "%s; the supplied Forwarded says tlsver=%q", conn, v)
+				}
+			}
+			for _, v := range c08Params(got, true, "tlscipher") {
+				switch {
+				case !f.TLS:
+					fail("forwarded", "Forwarded", "tlscipher-on-plain", "plain connection, the supplied Forwarded says tlscipher=%q", v)
+				case !c08NamesSuite(v, f.Suite):
+					fail("forwarded", "Forwarded", "tlscipher-wrong", "%s; the supplied Forwarded says tlscipher=%q", conn, v)
+				}
+			}
+			if lip, err := netip.ParseAddr(cfg.LocalIP); err == nil {
+				for _, v := range c08Params(got, true, "by") {
+					if !c08IPEq(c08NodeIP(v), lip) {
+						fail("forwarded", "Forwarded", "by-not-localip", "proxy.localip is %s, the supplied Forwarded says by=%q", cfg.LocalIP, v)
+					}
+				}
+			}
+		}
 	}
 
 	r.Tracef("checked %s kind=%s route-host=%q cip=%q xff=%q xri=%q tls=%q xfp=%q xfport=%q xfh=%q fwd-for=%q fwd-proto=%q", rq.ID, kind, rt.HostOpt,
 		up[cipCanon], up["X-Forwarded-For"], up["X-Real-Ip"], up[c08Canon(cfg.TLSHeader)], up["X-Forwarded-Proto"], up["X-Forwarded-Port"], up["X-Forwarded-Host"],
 		c08Params(up["Forwarded"], true, "for"), c08Params(up["Forwarded"], true, "proto"))
+	if len(sentFwd) == 0 {
+		r.Tracef("checked %s supplied forwarded: by=%q httpproto=%q tlsver=%q tlscipher=%q", rq.ID, c08Params(up["Forwarded"], true, "by"),
+			c08Params(up["Forwarded"], true, "httpproto"), c08Params(up["Forwarded"], true, "tlsver"), c08Params(up["Forwarded"], true, "tlscipher"))
+	}
+}
+
+// c08NamesTLSVersion: v denotes the protocol version ver either by its wire number (hexadecimal with 0x, as fabio
+// writes cipher suites and versions in proxy.addr options) or by a name made of "tls"/"ssl" and the digits of the
+// version ("tls12", "tls1.2", "TLSv1.2", "TLS 1.2"), compared without case, dots, spaces and 'v'.
+func c08NamesTLSVersion(v string, ver uint16) bool {
+	if lv := strings.ToLower(v); strings.HasPrefix(lv, "0x") {
+		n, err := strconv.ParseUint(lv[2:], 16, 16)
+		return err == nil && uint16(n) == ver
+	}
+	squash := func(s string) string {
+		return strings.NewReplacer(".", "", " ", "", "v", "", "_", "", "-", "").Replace(strings.ToLower(s))
+	}
+	return squash(v) == squash(tls.VersionName(ver))
+}
+
+// c08NamesSuite: v denotes the cipher suite by its IANA number (hexadecimal with 0x) or by its IANA name.
+func c08NamesSuite(v string, suite uint16) bool {
+	lv := strings.ToLower(v)
+	if strings.HasPrefix(lv, "0x") {
+		n, err := strconv.ParseUint(lv[2:], 16, 16)
+		return err == nil && uint16(n) == suite
+	}
+	return strings.EqualFold(v, tls.CipherSuiteName(suite))
 }
 
 // c08STSWrong compares an added Strict-Transport-Security value with the documented meaning of proxy.header.sts.*.
